@@ -265,9 +265,17 @@ impl GrammarBuilder {
                 nt_idx = self.get_nonterm_idx();
             }
 
+            // If the rule is given in several parts production ordinals
+            // continue from the previous part.
+            let ntidx_base = self
+                .nonterminals
+                .get(rule.name.as_ref())
+                .map_or(0, |nt| nt.productions.len());
+
             // Gather productions, create indexes. Transform RHS to mark
             // resolving references. Desugar regex-like references.
             for (prod_ntidx, production) in rule.rhs.into_iter().enumerate() {
+                let prod_ntidx = ntidx_base + prod_ntidx;
                 let mut desugar_productions: Vec<Production> = vec![];
                 let prod_idx = self.get_prod_idx();
 
